@@ -142,6 +142,32 @@ func vpH_C11_walk_Activity() { vpC11Walk("Activity") }
 func vpH_C11_walk_Actor()    { vpC11Walk("Actor") }
 func vpH_C11_walk_types()    { vpC11Walk(vpC11Types[3+vpChoice(len(vpC11Types)-3)]) }
 
+// an activity embedded at a walked position is cleaned like a top-level one: its own object, actor and target too
+func vpH_C11_embedded_activity() {
+	ti := vpTypeIndex(vpC11Types[vpChoice(3)])
+	x := vpNew(ti)
+	vpSetField(x, 0, 0, 'i')
+	positions := vpC11Walked
+	if vpTypeNames[ti] == "Activity" {
+		positions = append(append([]string{}, vpC11Walked...), "Object", "Target")
+	}
+	pos := positions[vpChoice(len(positions))]
+	inner := &Object{ID: vpMkIRI('d'), Type: NoteType}
+	inner.Bto, inner.BCC = vpPrivate('r')
+	who := &Actor{ID: vpMkIRI('w'), Type: PersonType}
+	who.Bto, who.BCC = vpPrivate('s')
+	emb := &Activity{ID: vpMkIRI('e'), Type: CreateType, Object: inner, Actor: who}
+	emb.Bto, emb.BCC = vpPrivate('q')
+	vpPlaceAt(x, pos, emb, vpBool())
+	cell := vpTypeNames[ti] + "." + pos
+	vpCleanable(x).Clean()
+	vpAssert("embedded-activity/own-lists-empty/"+cell, len(emb.Bto) == 0 && len(emb.BCC) == 0)
+	vpAssert("embedded-activity/object-cleaned/"+cell, len(inner.Bto) == 0 && len(inner.BCC) == 0)
+	vpAssert("embedded-activity/actor-cleaned/"+cell, len(who.Bto) == 0 && len(who.BCC) == 0)
+	vpAssert("embedded-activity/serialised/"+cell, !vpHasPrivate(vpMarshalOf(x)))
+	vpReach("end")
+}
+
 // positions that are not walked are left exactly as they were
 func vpH_C11_unwalked() {
 	ti := vpTypeIndex(vpC11Types[vpChoice(3)])
